@@ -355,12 +355,12 @@ Proof.
   rewrite prelude_ok; [| auto | auto | auto | destruct req; reflexivity | len_tac].
   cbn [fst snd]. unfold bind at 1, opt at 1.
   assert (Hty' : forall rest, type_name n (toks_ty t false ++ TP PTerm :: rest) = Some (t, TP PTerm :: rest)).
-  { intros rest. apply type_name_ok; [assumption | exact I | len_tac]. destruct req; len_tac. }
+  { intros rest. apply type_name_ok; [assumption | exact I | destruct req; len_tac]. }
   destruct req; norm; cbn [kw_ws W].
   - change ("required" =? "required") with true. cbv iota.
-    unfold bind. cbn [ident tokp punct_eqb lit_int]. rewrite Hty'. cbn. reflexivity.
+    unfold bind. cbn [ident tokp punct_eqb lit_int W]. rewrite Hty'. cbn. reflexivity.
   - assert (Hne : (name =? "required") = false) by (apply String.eqb_neq; auto).
-    rewrite Hne. unfold bind. cbn [ident tokp punct_eqb lit_int]. rewrite Hty'. cbn. reflexivity.
+    rewrite Hne. unfold bind. cbn [ident tokp punct_eqb lit_int W]. rewrite Hty'. cbn. reflexivity.
 Qed.
 
 Lemma member_fallback_ok : forall f n r, length (toks_fb_member f) < n ->
@@ -470,13 +470,13 @@ Proof.
   { apply flat_map_length_le. intros; apply toks_field_length. }
   rewrite (many_ok _ (struct_field n) toks_field).
   - unfold bind at 1, opt. destruct fb as [f|]; cbn [toks_optl].
-    + rewrite <- app_assoc. rewrite member_fallback_ok by (cbn [toks_optl] in Hn; len_tac). reflexivity.
+    + rewrite <- ?app_assoc. rewrite member_fallback_ok by (cbn [toks_optl] in Hn; len_tac). reflexivity.
     + cbn [app]. rewrite member_fallback_stops_close. reflexivity.
   - intros x r' Hx. apply struct_field_ok.
     + rewrite Forall_forall in Hwf. now apply Hwf.
     + pose proof (flat_map_elem_length _ toks_field fs x Hx). len_tac.
   - destruct fb as [f|]; cbn [toks_optl app].
-    + rewrite <- app_assoc. apply struct_field_stops_fb. cbn [toks_optl] in Hn. len_tac.
+    + rewrite <- ?app_assoc. apply struct_field_stops_fb. cbn [toks_optl] in Hn. len_tac.
     + apply struct_field_stops_close.
   - len_tac.
 Qed.
@@ -492,13 +492,13 @@ Proof.
   { apply flat_map_length_le. intros; apply toks_variant_length. }
   rewrite (many_ok _ (enum_variant n) toks_variant).
   - unfold bind at 1, opt. destruct fb as [f|]; cbn [toks_optl].
-    + rewrite <- app_assoc. rewrite member_fallback_ok by (cbn [toks_optl] in Hn; len_tac). reflexivity.
+    + rewrite <- ?app_assoc. rewrite member_fallback_ok by (cbn [toks_optl] in Hn; len_tac). reflexivity.
     + cbn [app]. rewrite member_fallback_stops_close. reflexivity.
   - intros x r' Hx. apply enum_variant_ok.
     + rewrite Forall_forall in Hwf. now apply Hwf.
     + pose proof (flat_map_elem_length _ toks_variant vs x Hx). len_tac.
   - destruct fb as [f|]; cbn [toks_optl app].
-    + rewrite <- app_assoc. apply enum_variant_stops_fb. cbn [toks_optl] in Hn. len_tac.
+    + rewrite <- ?app_assoc. apply enum_variant_stops_fb. cbn [toks_optl] in Hn. len_tac.
     + apply enum_variant_stops_close.
   - len_tac.
 Qed.
